@@ -1,10 +1,19 @@
 """Auxiliary checks (native bounded contract checks, Kani, CBMC) and counterexample search / replay."""
+import fcntl
 import json
 import os
+import re
 import subprocess
 import sys
+import time
 
 VERIF = os.path.dirname(os.path.dirname(os.path.abspath(__file__)))
+NATIVE = os.path.join(VERIF, 'native')
+NATIVE_BIN = os.path.join(NATIVE, 'target', 'release', 'scc_native')
+
+
+class InfraError(Exception):
+    pass
 
 
 class AuxResult:
@@ -15,6 +24,7 @@ class AuxResult:
         self.discharged = 0
         self.functions = []
         self.cases = 0
+        self.nontrivial = 0
         self.bound = ''
         self.violations = []        # dicts with 'obligation', 'counterexample', ...
         self.samples = []
@@ -23,8 +33,9 @@ class AuxResult:
         self.wall_s = 0.0
 
     def summary(self):
-        return {'name': self.name, 'kind': 'bounded (never counted as proved)', 'bound': self.bound,
-                'cases': self.cases, 'functions': self.functions, 'wall_s': round(self.wall_s, 1)}
+        return {'name': self.name, 'kind': 'bounded (never counted as proved)' if self.level != 'proof' else 'complete',
+                'bound': self.bound, 'cases': self.cases, 'distinct_nontrivial': self.nontrivial,
+                'functions': self.functions, 'wall_s': round(self.wall_s, 1)}
 
 
 REGISTRY = {}
@@ -38,17 +49,188 @@ def register(name):
 
 
 def run(name, prop, tier, seed):
-    return REGISTRY[name](prop, tier, seed)
+    t0 = time.time()
+    r = REGISTRY[name](prop, tier, seed)
+    r.wall_s = time.time() - t0
+    return r
+
+
+# ---- native crate ---------------------------------------------------------------------------------
+_built = False
+
+
+def native_build():
+    """(Re)build the native harness against /repo's current working tree (path dependencies)."""
+    global _built
+    if _built:
+        return
+    os.makedirs(os.path.join(VERIF, 'build'), exist_ok=True)
+    lock = open(os.path.join(VERIF, 'build', '.native.lock'), 'w')
+    fcntl.flock(lock, fcntl.LOCK_EX)
+    try:
+        env = dict(os.environ, CARGO_NET_OFFLINE='true')
+        p = subprocess.run(['cargo', 'build', '--release', '--offline', '-q'], cwd=NATIVE, capture_output=True, text=True, env=env, timeout=1800)
+        if p.returncode != 0:
+            raise InfraError('native harness does not build against /repo (API of the crates changed?):\n' + p.stderr[-3000:])
+        _built = True
+    finally:
+        fcntl.flock(lock, fcntl.LOCK_UN)
+        lock.close()
+
+
+def native_run(args, timeout=3600):
+    native_build()
+    cmd = [NATIVE_BIN] + args
+    p = subprocess.run(cmd, capture_output=True, text=True, timeout=timeout)
+    if p.returncode != 0:
+        raise InfraError('native harness failed: %s\n%s' % (' '.join(cmd), p.stderr[-2000:]))
+    try:
+        return json.loads(p.stdout), ' '.join(cmd)
+    except Exception:
+        raise InfraError('native harness produced no JSON: ' + p.stdout[-500:])
+
+
+def _native_result(name, sums, cmd, functions, backend_filter=None):
+    r = AuxResult(name)
+    r.cmds = ['cargo build --release --offline (in /verif/native, path-depends on /repo/lang/*) ; ' + cmd]
+    r.functions = functions
+    bounds = []
+    for s in sums:
+        if backend_filter and not s['check'].endswith('/' + backend_filter):
+            continue
+        r.cases += s['cases']
+        r.nontrivial += s['nontrivial']
+        bounds.append('%s: %s' % (s['check'], s['bound']))
+        r.samples += [{'bounded_check': s['check'], 'case': x} for x in s['samples'][:2]]
+        for v in s['violations']:
+            v = dict(v)
+            v['kind'] = 'native'
+            v['counterexample'] = {'input': v.get('input'), 'what': v.get('what'), 'instructions': v.get('instructions'),
+                                   'replay_cmd': cmd}
+            v['witness_class'] = v.get('what', '')[:60]
+            r.violations.append(v)
+    r.bound = ' | '.join(bounds)
+    r.assumptions = ['T5 token parametricity: data-movement code is checked on pairwise distinct random tokens',
+                     'executable machine models /verif/native/src/{x86,a64,rv}.rs follow the same instruction tables as spec/isa_*.rs (T1)']
+    return r
+
+
+@register('native_moves')
+def native_moves(prop, tier, seed):
+    sums, cmd = native_run(['moves', '--tier', tier, '--seed', str(seed)])
+    return _native_result('native_moves', sums, cmd,
+                          ['axcut2backend::statements::substitute::Substitute::code_statement', 'axcut2backend::substitution::{transpose,code_exchange,code_weakening_contraction}',
+                           'axcut2backend::parallel_moves::{parallel_moves,spanning_forest,spanning_tree,root_moves,tree_moves,delete_targets}',
+                           '<backend>::parallel_moves::{contains_spill_edge,store_temporary,restore_temporary}', '<backend>::code::mov', '<backend>::memory::{erase_block,share_block_n}'])
+
+
+def _emitters(prop, tier, seed, backend):
+    sums, cmd = native_run(['emitters', '--backend', backend, '--seed', str(seed)])
+    return _native_result('native_emitters/' + backend, sums, cmd, ['<%s>::code::Instructions::*' % backend], backend)
+
+
+@register('native_emitters_x86')
+def native_emitters_x86(prop, tier, seed):
+    return _emitters(prop, tier, seed, 'x86_64')
+
+
+@register('native_emitters_a64')
+def native_emitters_a64(prop, tier, seed):
+    return _emitters(prop, tier, seed, 'aarch64')
+
+
+@register('native_emitters_rv')
+def native_emitters_rv(prop, tier, seed):
+    return _emitters(prop, tier, seed, 'rv64')
+
+
+EMITTER_NAMES = ['add', 'sub', 'mul', 'div', 'rem', 'mov', 'load_immediate', 'load_label', 'add_and_jump', 'jump']
+
+
+def emitter_of(fn):
+    """Map a verified function id to the public emitter whose native contract exercises it."""
+    base = fn.split('::')[-1].split('/')[0]
+    if base.startswith('jump_label_if'):
+        return base
+    m = re.match(r'op(?:_commutative)?__(\w+)$', base)
+    if m:
+        return m.group(1)
+    for suf in ('_to_register', '_to_spill'):
+        if base.endswith(suf):
+            return base[:-len(suf)]
+    if base in ('move_to_register', 'move_from_register'):
+        return 'mov'
+    if base in ('compare',):
+        return 'jump_label_if_less'
+    if base in ('compare_immediate',):
+        return 'jump_label_if_less_zero'
+    if base in EMITTER_NAMES:
+        return base
+    return None
+
+
+def backend_of(unit):
+    if unit.startswith('x86'):
+        return 'x86_64'
+    if unit.startswith('a64'):
+        return 'aarch64'
+    if unit.startswith('rv'):
+        return 'rv64'
+    return None
 
 
 def find_counterexample(prop, unit, fn, obligation, tier):
-    """Search a concrete failing input for a rejected Verus obligation by running the real function natively."""
+    """Search a concrete failing input for a rejected / undecided Verus obligation by running the real
+    function natively against the executable form of its contract."""
+    backend = backend_of(unit)
+    em = emitter_of(fn)
+    if not backend or not em:
+        return None
+    try:
+        sums, cmd = native_run(['emitters', '--backend', backend, '--only', em], timeout=600)
+    except Exception:
+        return None
+    for s in sums:
+        for v in s['violations']:
+            return {'found_by': 'native contract replay of the real emitter', 'emitter': em, 'backend': backend,
+                    'input': v.get('input'), 'what': v.get('what'), 'instructions': v.get('instructions'), 'replay_cmd': cmd}
     return None
 
 
 def replay(prop, path):
     with open(path) as f:
         rep = json.load(f)
-    print(json.dumps({k: rep[k] for k in rep if k not in ('verifier_output',)}, indent=1)[:4000])
-    print(rep.get('verifier_output', ''))
+    print('property   : %s' % rep.get('property'))
+    print('obligation : %s' % rep.get('obligation'))
+    if rep.get('clause'):
+        print('clause     : %s' % rep.get('clause'))
+    if rep.get('source'):
+        print('source     : %s' % rep.get('source'))
+    cex = rep.get('counterexample')
+    if rep.get('verifier_output'):
+        print('--- verifier output when the violation was found ---')
+        print(rep['verifier_output'])
+    if cex and cex.get('replay_cmd'):
+        print('--- replaying against the real code: %s' % cex['replay_cmd'])
+        print('recorded input : %s' % cex.get('input'))
+        print('recorded result: %s' % cex.get('what'))
+        native_build()
+        p = subprocess.run(cex['replay_cmd'].split(), capture_output=True, text=True)
+        try:
+            sums = json.loads(p.stdout)
+        except Exception:
+            print(p.stdout[-2000:], p.stderr[-2000:])
+            return 2
+        nv = 0
+        for s in sums:
+            for v in s['violations']:
+                nv += 1
+                print('STILL FAILS: %s | %s | %s' % (v.get('obligation'), v.get('input'), v.get('what')))
+                for ins in (v.get('instructions') or [])[:40]:
+                    print('    ' + ins)
+        if nv == 0:
+            print('the recorded input no longer fails on the current tree')
+            return 0
+        return 1
+    print('no concrete input recorded (no-failing-input-found); re-run ./check %s to re-verify the obligation' % rep.get('property'))
     return 0
